@@ -294,6 +294,64 @@ func (w *livePipes) pipes() []mangos.Pipe {
 	return out
 }
 
+// rejTracker is a SUBSCRIBER-side pipe event hook that turns down some of the subscriber's own
+// connections: the connection with ordinal i (0 = first ever) is closed when bit i of mask is
+// set, either inside the Attaching event or inside the Attached event.  It also tracks the
+// accepted ("good") connections so that the case can wait for exactly the state it needs.
+type rejTracker struct {
+	mu          sync.Mutex
+	mask        uint
+	atAttaching bool
+	conns       int // Attaching events seen
+	nrej        int
+	rejected    map[uint32]bool
+	good        map[uint32]bool
+	liveGood    int
+	goodDet     int
+}
+
+func (t *rejTracker) hook(ev mangos.PipeEvent, p mangos.Pipe) {
+	closeIt := false
+	t.mu.Lock()
+	id := p.ID()
+	switch ev {
+	case mangos.PipeEventAttaching:
+		delete(t.rejected, id)
+		delete(t.good, id)
+		ord := t.conns
+		t.conns++
+		if ord < 16 && t.mask>>uint(ord)&1 == 1 {
+			t.rejected[id] = true
+			t.nrej++
+			closeIt = t.atAttaching
+		}
+	case mangos.PipeEventAttached:
+		if t.rejected[id] {
+			closeIt = !t.atAttaching
+		} else {
+			t.good[id] = true
+			t.liveGood++
+		}
+	case mangos.PipeEventDetached:
+		if t.good[id] {
+			delete(t.good, id)
+			t.liveGood--
+			t.goodDet++
+		}
+		delete(t.rejected, id)
+	}
+	t.mu.Unlock()
+	if closeIt {
+		_ = p.Close()
+	}
+}
+
+func (t *rejTracker) snap() (conns, nrej, liveGood, goodDet int) {
+	t.mu.Lock()
+	defer t.mu.Unlock()
+	return t.conns, t.nrej, t.liveGood, t.goodDet
+}
+
 // awaitConn waits for connection set-up, which is not C06's subject: anything but success is inconclusive.
 func awaitConn(c *mon.Case, what string, maxTimer time.Duration, cond func() bool) bool {
 	r := mon.Await(cond, mon.AwaitOpts{MaxTimer: maxTimer})
@@ -318,6 +376,7 @@ func runRedial(c *mon.Case, sp spec) {
 		maxRt = 4 * rt
 	}
 	maxTimer := 8 * rt
+	var trk []*rejTracker
 	pub := hx.MustSock(c, proto)
 	w := watchLive(pub)
 	var lo, do map[string]interface{}
@@ -348,6 +407,16 @@ func runRedial(c *mon.Case, sp spec) {
 			c.Inconclusive("setup: %v", err)
 			return
 		}
+		if sp.Reject {
+			t := &rejTracker{atAttaching: c.Rand.Intn(2) == 0, rejected: map[uint32]bool{}, good: map[uint32]bool{}}
+			if c.Rand.Intn(2) == 0 {
+				t.mask = 1<<uint(1+c.Rand.Intn(3)) - 1 // only the first 1-3 connections
+			} else {
+				t.mask = uint(1 + c.Rand.Intn(63)) // any of the first six
+			}
+			s.SetPipeEventHook(t.hook)
+			trk = append(trk, t)
+		}
 		d, err := s.NewDialer(addr, do)
 		if err == nil {
 			err = d.Dial()
@@ -357,18 +426,58 @@ func runRedial(c *mon.Case, sp spec) {
 			return
 		}
 	}
-	if !awaitConn(c, "subscribers attaching", maxTimer, func() bool { a, _ := w.counts(); return a >= sp.NSub }) {
-		return
+	// settled (Reject): every subscriber holds an accepted connection (and has lost gd0[i]+1 of
+	// them when gd0 is given) and the publisher has attached every connection any subscriber has
+	// seen, the accepted ones among them.  A subscriber with an accepted connection dials no more.
+	settled := func(gd0 []int) bool {
+		sum := 0
+		for i, t := range trk {
+			cn, _, lg, gd := t.snap()
+			if lg < 1 || (gd0 != nil && gd <= gd0[i]) {
+				return false
+			}
+			sum += cn
+		}
+		a, _ := w.counts()
+		return a >= sum
 	}
 	var trace strings.Builder
+	if sp.Reject {
+		if !awaitConn(c, "subscribers attaching past their own rejections", maxTimer, func() bool { return settled(nil) }) {
+			return
+		}
+		for _, t := range trk {
+			fmt.Fprintf(&trace, "J%x", t.mask)
+			if t.atAttaching {
+				trace.WriteString("a")
+			}
+		}
+	} else if !awaitConn(c, "subscribers attaching", maxTimer, func() bool { a, _ := w.counts(); return a >= sp.NSub }) {
+		return
+	}
 	if !g.burstOn([]mangos.Socket{pub}, 1+c.Rand.Intn(8), "first connection", maxTimer) {
 		return
 	}
 	redials := 0
 	for gen := 1; gen <= sp.Rounds; gen++ {
 		phase := fmt.Sprintf("generation %d", gen)
-		restart := sp.Restart && c.Rand.Intn(2) == 0
-		if restart {
+		restart := sp.Restart && !sp.Reject && c.Rand.Intn(2) == 0
+		if sp.Reject {
+			// the publisher drops every connection it has (stale rejected ones included); each
+			// subscriber must lose its accepted connection and get another past its own hook
+			gd0 := make([]int, len(trk))
+			for i, t := range trk {
+				_, _, _, gd0[i] = t.snap()
+			}
+			for _, p := range w.pipes() {
+				_ = p.Close()
+			}
+			if !awaitConn(c, phase+": dropped subscribers reconnecting past their own rejections", maxTimer, func() bool { return settled(gd0) }) {
+				return
+			}
+			redials += sp.NSub
+			fmt.Fprintf(&trace, "D%d", sp.NSub)
+		} else if restart {
 			// the publisher goes away and a new one appears at the same address
 			_ = pub.Close()
 			np := hx.MustSock(c, proto)
@@ -418,6 +527,15 @@ func runRedial(c *mon.Case, sp spec) {
 		if !g.burstOn([]mangos.Socket{pub}, 0, "closing barrier", maxTimer) {
 			return
 		}
+	}
+	nrej := 0
+	for _, t := range trk {
+		_, n, _, _ := t.snap()
+		nrej += n
+	}
+	if sp.Reject {
+		c.Count("redial_own_rejections", nrej)
+		redials += nrej
 	}
 	c.Count("redial_reconnections", redials)
 	c.Count("redial_deliveries_checked", g.nchk)
